@@ -42,7 +42,7 @@ fn digest_profiles() -> Vec<Profile> {
         Profile { intrusions: false, ..Profile::sharing() },
         Profile { callback_panics: true, ..Profile::panics() },
         Profile::statics(),
-        Profile { overflow_sizes: true, w_reserve: 16, w_shrink: 8, intrusions: false, ..Profile::sharing() },
+        Profile { overflow_sizes: true, w_reserve: 16, w_shrink: 8, w_extend: 16, intrusions: false, ..Profile::sharing() },
         Profile { w_extend: 14, w_convert: 8, ..Profile::faults() },
     ]
 }
